@@ -1,27 +1,33 @@
 import Glom.Lemmas.C02
 import Glom.Model.C02Env
+import Glom.Model.C02Heap
 /-
   C02 — T expressions replay exactly the recorded operations on the target.
 
   Property theorems only; helper lemmas are in `Glom/Lemmas/C02.lean`.
-  Every theorem is for *all* value types `V`, all primitive semantics `prim`
-  (Python's own meaning of getattr / subscription / arithmetic / calling is a
-  parameter: the theorems are about glom's record-and-replay logic), all
-  targets, all expressions of any length and any nesting of T / Spec(T) / list /
+  Every theorem is for *all* value types `V`, all state types `S`, all primitive
+  semantics `prim` (Python's own meaning of getattr / subscription / arithmetic /
+  calling — including what a call does to the state — is a parameter: the
+  theorems are about glom's record-and-replay logic), all targets, all start
+  states, all expressions of any length and any nesting of T / Spec(T) / list /
   tuple / dict arguments, and all fact tables satisfying the decidable predicate
   `WF`; `c02_facts_wf` discharges `WF` for the tables regenerated from /repo on
-  this run.
+  this run.  Both sides of every equation are pairs (outcome, state left): the
+  theorems also say that the target object is changed in exactly the way the
+  chain applied directly changes it — also when the evaluation ends with an error.
 
   Hypotheses, each with a satisfying example below:
     * `WF F`             the extracted tables are well formed (facts obligation)
     * `record … = some o` the expression can be written: every operation used has
                           an overload on TType
-    * `hplain`           `arg_val` applied to an already evaluated value returns
-                          it, i.e. the target's data contains no glom spec objects.
-                          Forced by the proof: `Call.glomit` passes the function and
-                          every (already evaluated) argument through `arg_val` a
-                          second time; `c02_double_eval_counterexample` is the
-                          concrete input without it.
+    * `Plain prim`       the second `arg_val` pass of `Call.glomit` over the already
+                          evaluated function and arguments does what passing
+                          list / tuple / dict arguments *by value* does, i.e. the
+                          target's data contains no glom spec objects.
+                          Forced by the proof; `c02_double_eval_counterexample` is the
+                          concrete input without it.  That the reference has to say
+                          "by value" at all is forced as well:
+                          `c02_call_by_value_counterexample`.
 -/
 namespace Glom.Props.C02
 open Glom Glom.C02
@@ -43,20 +49,30 @@ theorem c02_no_dropped_op (d c : String) (h : charOf genFacts d = some c) :
   recorded_wf c02_facts_wf h
 
 /-- **Replay.**  Evaluating the recorded object with `_t_eval` (flat tuple, index
-    stepping by 2, branch table, `arg_val` on every argument, calls routed through
-    `Call`) yields exactly what applying the chain of operations directly to the
-    target yields — the same value; or the first failing operation, as
-    PathAccessError(position) when the branch's `except` clause names its class
-    and unchanged otherwise; or the failure of the first failing argument. -/
-theorem c02_replay {V : Type} (F : Facts) (hwf : WF F = true) (prim : Prim V)
-    (hplain : ∀ t v, prim.reval t v = v) (e : E V) (o : C02.Obj V)
-    (hrec : record F prim.none e = some o) (target : V) :
-    tEval F prim o target = outOf F (refEval prim e target) := by
+    stepping by 2, branch table, `arg_val` on every argument inside the loop,
+    calls routed through `Call`) started in any state `s` yields exactly what
+    applying the chain of operations directly to the target object in state `s`
+    yields — the same value *and the same state afterwards*; or the first failing
+    operation, as PathAccessError(position) when the branch's `except` clause
+    names its class and unchanged otherwise; or the failure of the first failing
+    argument — again with the same state left behind. -/
+theorem c02_replay {V S : Type} (F : Facts) (hwf : WF F = true) (prim : Prim V S)
+    (hplain : Plain prim) (e : E V) (o : C02.Obj V)
+    (hrec : record F prim.none e = some o) (target : V) (s : S) :
+    tEval F prim o target s = outS F (refEval prim e target s) := by
   unfold tEval refEval
   rw [argVal_record F hwf prim hplain target e o hrec]
-  cases refArg prim target e with
-  | error e => rfl
-  | ok av => cases av <;> rfl
+  simp only [outRun, outS]
+  cases h : refArg prim target e s with
+  | mk x s1 =>
+    cases x with
+    | error e => rfl
+    | ok av => cases av <;> rfl
+
+/-- The executable instance the correspondence driver runs (values with object
+    identity in a heap, `Glom/Model/C02Heap.lean`) meets the hypothesis `Plain`:
+    its second `arg_val` pass *is* the by-value passing of the reference. -/
+theorem c02_driver_instance_plain : Plain hPrim := fun _ _ _ _ _ => rfl
 
 /-- **Which failures are PathAccessErrors.**  A failing attribute / item /
     arithmetic operation number `k` raising a documented class surfaces as
@@ -67,71 +83,86 @@ theorem c02_error_classes (F : Facts) (hwf : WF F = true) (k : Nat) (kind : Kind
     (kind = .call → errOf F (.opFail k kind e) = .raised e) :=
   errOf_opFail hwf k kind e
 
-/-- **Arguments are evaluated against the original target.**  For a chain
-    `pre` followed by one operation `d` whose argument is itself a T expression
-    `inner`: first `pre` is applied to the target giving `cur`; then `inner` is
-    evaluated on the TARGET (not on `cur`); then `d` is applied to `cur` with
-    that value, as operation number `pre.length`. -/
-theorem c02_args_from_root {V : Type} (F : Facts) (hwf : WF F = true) (prim : Prim V)
-    (hplain : ∀ t v, prim.reval t v = v) (pre inner : List (String × E V)) (d : String)
+/-- **Arguments are evaluated against the original target object in its current
+    state.**  For a chain `pre` followed by one operation `d` whose argument is
+    itself a T expression `inner`: first `pre` is applied to the target in state
+    `s`, giving `cur` and leaving state `s1`; then `inner` is evaluated on the
+    TARGET (not on `cur`) *in state `s1`* (not in `s`: it sees what `pre` did to
+    the target), leaving `s2`; then `d` is applied to `cur` with that value in
+    state `s2`, as operation number `pre.length`. -/
+theorem c02_args_from_root {V S : Type} (F : Facts) (hwf : WF F = true) (prim : Prim V S)
+    (hplain : Plain prim) (pre inner : List (String × E V)) (d : String)
     (hd : arglessDunders.contains d = false) (o : C02.Obj V)
-    (hrec : record F prim.none (.texpr (pre ++ [(d, .texpr inner)])) = some o) (target : V) :
-    tEval F prim o target = outOf F
-      (match refEval prim (.texpr pre) target with
-       | .error e => .error e
-       | .ok cur =>
-         match refEval prim (.texpr inner) target with
-         | .error e => .error e
-         | .ok a =>
+    (hrec : record F prim.none (.texpr (pre ++ [(d, .texpr inner)])) = some o) (target : V)
+    (s : S) :
+    tEval F prim o target s = outS F
+      (match refEval prim (.texpr pre) target s with
+       | (.error e, s1) => (.error e, s1)
+       | (.ok cur, s1) =>
+         match refEval prim (.texpr inner) target s1 with
+         | (.error e, s2) => (.error e, s2)
+         | (.ok a, s2) =>
            match meaning d with
-           | none => .error .unsupported
+           | none => (.error .unsupported, s2)
            | some kind =>
-             match pyApply prim kind cur (.val a) with
-             | none => .error .unsupported
-             | some (.ok v) => .ok v
-             | some (.error e) => .error (.opFail pre.length kind e)) := by
-  rw [c02_replay F hwf prim hplain _ o hrec target]
+             match pyApply prim kind s2 cur (.val a) with
+             | none => (.error .unsupported, s2)
+             | some (.ok v, s3) => (.ok v, s3)
+             | some (.error e, s3) => (.error (.opFail pre.length kind e), s3)) := by
+  rw [c02_replay F hwf prim hplain _ o hrec target s]
   congr 1
   simp only [refEval_texpr, List.map_append, List.map_cons, List.map_nil, foldSteps_append]
-  cases foldSteps prim (pre.map (refStep prim target)) 0 target with
-  | error e => rfl
-  | ok cur =>
-    simp only [refStep, hd, Bool.false_eq_true, if_false, foldSteps, List.length_map,
-      Nat.zero_add]
-    rw [refArg_texpr]
-    cases foldSteps prim (inner.map (refStep prim target)) 0 target with
+  cases h1 : foldSteps prim (pre.map (refStep prim target)) 0 s target with
+  | mk x s1 =>
+    cases x with
     | error e => rfl
-    | ok a =>
-      simp only
-      cases meaning d with
-      | none => rfl
-      | some kind =>
-        simp only
-        cases pyApply prim kind cur (.val a) with
-        | none => rfl
-        | some r => cases r <;> rfl
+    | ok cur =>
+      simp only [refStep, hd, Bool.false_eq_true, if_false, foldSteps, List.length_map,
+        Nat.zero_add]
+      rw [refArg_texpr]
+      cases h2 : foldSteps prim (inner.map (refStep prim target)) 0 s1 target with
+      | mk y s2 =>
+        cases y with
+        | error e => rfl
+        | ok a =>
+          simp only
+          cases meaning d with
+          | none => rfl
+          | some kind =>
+            simp only
+            cases h3 : pyApply prim kind s2 cur (.val a) with
+            | none => rfl
+            | some r =>
+              obtain ⟨r, s3⟩ := r
+              cases r <;> rfl
 
 /-- **Checker theorem** — the form in which the property is also evaluated on
-    the implementation's observation by the correspondence driver. -/
-theorem c02_model_checks {V : Type} [BEq V] [ReflBEq V] (F : Facts) (hwf : WF F = true)
-    (prim : Prim V) (hplain : ∀ t v, prim.reval t v = v) (e : E V) (o : C02.Obj V)
-    (hrec : record F prim.none e = some o) (target : V)
-    (hsup : refEval prim e target ≠ .error .unsupported) :
-    checkC02 prim e target (observe F (tEval F prim o target)) = true := by
-  rw [c02_replay F hwf prim hplain e o hrec target]
-  unfold checkC02
-  cases hr : refEval prim e target with
-  | ok v => simp [outOf, observe, checkObs]
+    the implementation's observation by the correspondence driver: the outcome
+    and the target object afterwards, as an observer sees them (`view`: any
+    function of the state left and a value; the driver's is "the tree the value
+    denotes in the heap"). -/
+theorem c02_model_checks {V S W : Type} [BEq W] [ReflBEq W] (view : View V S W) (F : Facts)
+    (hwf : WF F = true) (prim : Prim V S) (hplain : Plain prim) (e : E V) (o : C02.Obj V)
+    (hrec : record F prim.none e = some o) (target : V) (s : S)
+    (hsup : (refEval prim e target s).1 ≠ .error .unsupported) :
+    checkC02 view prim e target s (observeS F view target (tEval F prim o target s)) = true := by
+  rw [c02_replay F hwf prim hplain e o hrec target s]
+  unfold checkC02 observeS
+  generalize refEval prim e target s = rs at hsup ⊢
+  obtain ⟨r, s1⟩ := rs
+  simp only [outS, BEq.rfl, Bool.and_true]
+  cases r with
+  | ok v => simp [viewRes, outOf, observe, checkObs]
   | error re =>
     cases re with
-    | unsupported => exact absurd hr hsup
-    | raised x => simp [outOf, errOf, observe, checkObs]
+    | unsupported => exact absurd rfl hsup
+    | raised x => simp [viewRes, outOf, errOf, observe, checkObs]
     | opFail k kind x =>
       obtain ⟨hdoc, hcall⟩ := kindsOk_of_wf hwf kind
       have hflag : (F.exc.mro "PathAccessError").contains "GlomError" = true := by
         simp only [WF, Bool.and_eq_true] at hwf; exact hwf.2
       have hflag' : "GlomError" ∈ F.exc.mro "PathAccessError" := by simpa using hflag
-      simp only [outOf, errOf]
+      simp only [viewRes, outOf, errOf]
       split
       · rename_i hc
         have hne : kind ≠ .call := by
@@ -153,40 +184,73 @@ open Glom Glom.C02 Glom.Props.C02
 
 /-! ### non-vacuity: concrete inputs meet every hypothesis; counter-examples without them -/
 
-/-- toy values: numbers, and a glom `T` object stored as *data* inside the target -/
+/-- toy values: numbers; a glom `T` object stored as *data* inside the target;
+    a stack object (its content is the state), its bound method `pop`, and a
+    by-value copy of it -/
 inductive TV where
   | n (k : Int)
   | tobj
+  | stack
+  | popm
+  | snap
   deriving DecidableEq, Repr
 
 instance : ReflBEq TV := ⟨by intro a; cases a <;> simp [BEq.beq]⟩
 
-/-- toy primitives: `cur[1]`, `cur[2]` are the object `tobj`; every callable is the
-    identity function of one argument; `//` and `+` on numbers; `-x`.
-    `reval` is the second `arg_val` pass of `Call.glomit`. -/
-def toyPrim (reval : TV → TV → TV) : Prim TV :=
+/-- toy primitives on the state `List Int` (the content of the object `stack`):
+    `stack.pop` is the bound method `popm`, calling it removes and returns the
+    last element; `stack[0]` is the last element *now*; `cur[1]`, `cur[2]` are
+    the object `tobj`; every other callable is the identity function of one
+    argument; `//` and `+` on numbers; `-x`.
+    `reval` is the second `arg_val` pass of `Call.glomit`, `pass` is how the
+    reference semantics passes arguments. -/
+def toyPrim (reval : TV → TV → TV) (pass : TV → TV) : Prim TV (List Int) :=
   { none := .n 0
-    getattr := fun _ _ => .error ⟨"AttributeError"⟩
-    getitem := fun _ a => match a with
-      | .n 1 => .ok .tobj | .n 2 => .ok .tobj | _ => .error ⟨"KeyError"⟩
-    call := fun _ args _ => match args with | [a] => .ok a | _ => .error ⟨"TypeError"⟩
-    bin := fun b x y => match b, x, y with
+    getattr := fun s cur _ => match cur with
+      | .stack => (.ok .popm, s)
+      | _ => (.error ⟨"AttributeError"⟩, s)
+    getitem := fun s cur a => match cur, a with
+      | .stack, .n 0 => (match s.getLast? with
+        | some x => (.ok (.n x), s)
+        | none => (.error ⟨"IndexError"⟩, s))
+      | _, .n 1 => (.ok .tobj, s) | _, .n 2 => (.ok .tobj, s)
+      | _, _ => (.error ⟨"KeyError"⟩, s)
+    call := fun s f args _ => match f, args with
+      | .popm, [] => (match s.getLast? with
+        | some x => (.ok (.n x), s.dropLast)
+        | none => (.error ⟨"IndexError"⟩, s))
+      | _, [a] => (.ok a, s)
+      | _, _ => (.error ⟨"TypeError"⟩, s)
+    bin := fun b s x y => match b, x, y with
       | .floordiv, .n a, .n c =>
-        if c = 0 then .error ⟨"ZeroDivisionError"⟩ else .ok (.n (Int.fdiv a c))
-      | .add, .n a, .n c => .ok (.n (a + c))
-      | _, _, _ => .error ⟨"TypeError"⟩
-    un := fun _ x => match x with | .n a => .ok (.n (-a)) | _ => .error ⟨"TypeError"⟩
-    mkList := fun _ => .n 0
-    mkTuple := fun _ => .n 0
-    mkDict := fun _ => .ok (.n 0)
-    reval := reval }
+        if c = 0 then (.error ⟨"ZeroDivisionError"⟩, s) else (.ok (.n (Int.fdiv a c)), s)
+      | .add, .n a, .n c => (.ok (.n (a + c)), s)
+      | _, _, _ => (.error ⟨"TypeError"⟩, s)
+    un := fun _ s x => match x with
+      | .n a => (.ok (.n (-a)), s)
+      | _ => (.error ⟨"TypeError"⟩, s)
+    mkList := fun s _ => (.n 0, s)
+    mkTuple := fun s _ => (.n 0, s)
+    hashKey := fun s _ => (.ok (), s)
+    mkDict := fun s _ => (.ok (.n 0), s)
+    passCall := fun s f args kwargs =>
+      ((pass f, args.map pass, kwargs.map (fun p => (p.1, pass p.2))), s)
+    revalCall := fun s t f args kwargs =>
+      ((reval t f, args.map (reval t), kwargs.map (fun p => (p.1, reval t p.2))), s) }
 
 /-- plain data: the second `arg_val` pass returns its argument -/
 def plain : TV → TV → TV := fun _ v => v
 /-- data containing `T` objects: the second pass evaluates them against the target -/
 def leaky : TV → TV → TV := fun t v => match v with | .tobj => t | v => v
+/-- the second pass rebuilds containers: the stack object becomes a copy -/
+def copying : TV → TV → TV := fun _ v => match v with | .stack => .snap | v => v
+def byValue : TV → TV := copying (.n 0)
 
-example : ∀ t v, (toyPrim plain).reval t v = v := fun _ _ => rfl
+example : Plain (toyPrim plain id) := by
+  intro s t f args kwargs
+  simp [toyPrim, show plain t = id from rfl]
+
+example : Plain (toyPrim copying byValue) := fun _ _ _ _ _ => rfl
 
 /-- `(T // 2) + (-T)` -/
 def exE : E TV :=
@@ -195,27 +259,61 @@ def exE : E TV :=
 def exO : C02.Obj TV :=
   .tt [.root "T", .opc "#", .lit (.n 2), .opc "+", .tt [.root "T", .opc "_", .lit (.n 0)]]
 
-theorem ex_record : record genFacts (toyPrim plain).none exE = some exO := by
+theorem plain_ok : Plain (toyPrim plain id) := by
+  intro s t f args kwargs
+  simp [toyPrim, show plain t = id from rfl]
+
+theorem ex_record : record genFacts (toyPrim plain id).none exE = some exO := by
   simp [exE, exO, toyPrim, record_texpr, recStep, charOf, genFacts, Generated.tRecorded,
     arglessDunders, allSome, flatOfCells, record]
 
 /-- applied directly to 7: `7 // 2 + -7 = -4` (the nested `-T` sees the target 7, not 3) -/
-theorem ex_ref : refEval (toyPrim plain) exE (.n 7) = .ok (.n (-4)) := by
+theorem ex_ref : refEval (toyPrim plain id) exE (.n 7) [] = (.ok (.n (-4)), []) := by
   simp [exE, refEval_texpr, refStep, arglessDunders, meaning, meaningTable, foldSteps, pyApply,
-    toyPrim, refArg_texpr, refArg]
+    toyPrim, refArg]
 
-example : refEval (toyPrim plain) exE (.n 7) ≠ .error .unsupported := by rw [ex_ref]; simp
+example : (refEval (toyPrim plain id) exE (.n 7) []).1 ≠ .error .unsupported := by
+  rw [ex_ref]; simp
 
 /-- hence, by `c02_replay`, so does the model on the recorded object -/
-example : tEval genFacts (toyPrim plain) exO (.n 7) = .ok (.n (-4)) := by
-  rw [c02_replay genFacts c02_facts_wf (toyPrim plain) (fun _ _ => rfl) exE exO ex_record, ex_ref]
+example : tEval genFacts (toyPrim plain id) exO (.n 7) [] = (.ok (.n (-4)), []) := by
+  rw [c02_replay genFacts c02_facts_wf (toyPrim plain id) plain_ok exE exO ex_record, ex_ref]
   rfl
 
 /-- a failing operation: `(T // 0)` is operation 0 raising ZeroDivisionError -/
-example : refEval (toyPrim plain) (.texpr [("__floordiv__", .lit (.n 0))]) (.n 7)
-    = .error (.opFail 0 (.bin .floordiv) ⟨"ZeroDivisionError"⟩) := by
+example : refEval (toyPrim plain id) (.texpr [("__floordiv__", .lit (.n 0))]) (.n 7) []
+    = (.error (.opFail 0 (.bin .floordiv) ⟨"ZeroDivisionError"⟩), []) := by
   simp [refEval_texpr, refStep, arglessDunders, meaning, meaningTable, foldSteps, pyApply,
     toyPrim, refArg]
+
+/-! #### a call that changes the target: `T.pop() + T[0]` on the stack `[10, 20, 30]` -/
+
+def popE : E TV :=
+  .texpr [("__getattr__", .lit (.n 0)), ("__call__", .cargs [] []),
+          ("__add__", .texpr [("__getitem__", .lit (.n 0))])]
+
+def popCells : List (String × C02.Obj TV) :=
+  [(".", .lit (.n 0)), ("(", .cargs [] []),
+   ("+", .tt (.root "T" :: flatOfCells [("[", .lit (.n 0))]))]
+
+def popO : C02.Obj TV := .tt (.root "T" :: flatOfCells popCells)
+
+/-- the evaluation order of the seeded change C02-s2 — `t_args = [arg_val(target, arg, scope)
+    for arg in t_path[2::2]]` in front of the loop: all arguments first (in the start state),
+    then the operations -/
+def applyAll {V S} (F : Facts) (prim : Prim V S) (target : V) :
+    List String → List (AV V) → Nat → S → V → Except Err V × S
+  | c :: cs, av :: avs, k, s, cur =>
+    match applyBranch F prim target k c s cur av with
+    | (.ok v, s1) => applyAll F prim target cs avs (k + 1) s1 v
+    | (.error e, s1) => (.error e, s1)
+  | _, _, _, s, cur => (.ok cur, s)
+
+def tEvalHoisted {V S} (F : Facts) (prim : Prim V S) (cells : List (String × C02.Obj V))
+    (target : V) (s : S) : Except Err V × S :=
+  match seqRun (cells.map (fun c => argVal F prim target c.2)) s with
+  | (.error e, s1) => (.error e, s1)
+  | (.ok avs, s1) => applyAll F prim target (cells.map (·.1)) avs 0 s1 target
 
 /-! #### without `WF`: the tables of the tree before commit e2222c4 (no branch for `'#'`)
     make `_t_eval` skip the recorded floor division without any error -/
@@ -223,7 +321,7 @@ example : refEval (toyPrim plain) (.texpr [("__floordiv__", .lit (.n 0))]) (.n 7
 def droppedFacts : Facts :=
   { genFacts with dispatch := genFacts.dispatch.filter (fun en => en.1 != "#") }
 
-/-! #### without `hplain`: `T[1](T[2])` on a target whose items are `T` objects -/
+/-! #### without `Plain`: `T[1](T[2])` on a target whose items are `T` objects -/
 
 def dblE : E TV :=
   .texpr [("__getitem__", .lit (.n 1)),
@@ -233,28 +331,62 @@ def dblO : C02.Obj TV :=
   .tt [.root "T", .opc "[", .lit (.n 1), .opc "(",
        .cargs [.tt [.root "T", .opc "[", .lit (.n 2)]] []]
 
+/-! #### the identity function called with the target: `T[1](T)` on the stack object -/
+
+def idE : E TV := .texpr [("__getitem__", .lit (.n 1)), ("__call__", .cargs [.texpr []] [])]
+
+def idO : C02.Obj TV :=
+  .tt (.root "T" :: flatOfCells [("[", .lit (.n 1)), ("(", .cargs [.tt [.root "T"]] [])])
+
 end Glom.C02.Examples
 
 namespace Glom.Props.C02
 open Glom Glom.C02 Glom.C02.Examples
+
+/-- **The state is threaded through the replay.**  `T.pop() + T[0]` on the stack
+    `[10, 20, 30]`: the chain applied directly pops 30 and then reads the last
+    element *of what is left* (20): 50, leaving `[10, 20]`; so does the model of
+    `_t_eval`.  Evaluating all arguments in front of the loop (the seeded change
+    C02-s2) reads `T[0]` before the pop: 60.  Real glom:
+    `glom({'l': [10, 20, 30]}, T['l'].pop() + T['l'][-1]) == 50`. -/
+theorem c02_hoisted_args_counterexample :
+    record genFacts (toyPrim plain id).none popE = some popO ∧
+    refEval (toyPrim plain id) popE .stack [10, 20, 30] = (.ok (.n 50), [10, 20]) ∧
+    tEval genFacts (toyPrim plain id) popO .stack [10, 20, 30] = (.ok (.n 50), [10, 20]) ∧
+    tEvalHoisted genFacts (toyPrim plain id) popCells .stack [10, 20, 30]
+      = (.ok (.n 60), [10, 20]) := by
+  have hrec : record genFacts (toyPrim plain id).none popE = some popO := by
+    simp [popE, popO, popCells, toyPrim, record_texpr, recStep, charOf, genFacts,
+      Generated.tRecorded, arglessDunders, allSome, flatOfCells, record]
+  have href : refEval (toyPrim plain id) popE .stack [10, 20, 30] = (.ok (.n 50), [10, 20]) := by
+    simp [popE, refEval_texpr, refStep, arglessDunders, meaning, meaningTable, foldSteps, pyApply,
+      toyPrim, refArg, refVals, seqRun]
+  refine ⟨hrec, href, ?_, ?_⟩
+  · rw [c02_replay genFacts c02_facts_wf (toyPrim plain id) plain_ok popE popO hrec, href]
+    rfl
+  · simp only [tEvalHoisted, popCells, List.map, seqRun, argVal_tt_T]
+    simp [argVal_lit, argVal_cargs, seqRun, stepsEval, valsOf, applyAll,
+      applyBranch, dispatchOf, genFacts, Generated.tDispatch, Kind.ofString, kindNames, guarded,
+      guardE, toyPrim, plain]
 
 /-- Without `WF` the conclusion of `c02_replay` fails: with the branch table of the tree
     before commit e2222c4 the expression `T // 2` is recorded as `'#'`, the model of
     `_t_eval` returns the target 7 unchanged (no error), the chain applied directly gives 3. -/
 theorem c02_wf_counterexample :
     WF droppedFacts = false ∧
-    record droppedFacts (toyPrim plain).none (.texpr [("__floordiv__", .lit (.n 2))])
+    record droppedFacts (toyPrim plain id).none (.texpr [("__floordiv__", .lit (.n 2))])
       = some (.tt [.root "T", .opc "#", .lit (.n 2)]) ∧
-    tEval droppedFacts (toyPrim plain) (.tt [.root "T", .opc "#", .lit (.n 2)]) (.n 7)
-      = .ok (.n 7) ∧
-    refEval (toyPrim plain) (.texpr [("__floordiv__", .lit (.n 2))]) (.n 7) = .ok (.n 3) := by
+    tEval droppedFacts (toyPrim plain id) (.tt [.root "T", .opc "#", .lit (.n 2)]) (.n 7) []
+      = (.ok (.n 7), []) ∧
+    refEval (toyPrim plain id) (.texpr [("__floordiv__", .lit (.n 2))]) (.n 7) []
+      = (.ok (.n 3), []) := by
   refine ⟨by decide, ?_, ?_, ?_⟩
   · simp [toyPrim, record_texpr, recStep, charOf, droppedFacts, genFacts, Generated.tRecorded,
       arglessDunders, allSome, flatOfCells, record]
   · have h : (C02.Obj.tt [.root "T", .opc "#", .lit (TV.n 2)]) =
         .tt (.root "T" :: flatOfCells [("#", .lit (.n 2))]) := by simp [flatOfCells]
     rw [h]
-    simp [tEval, argVal_tt_T, stepsEval, argVal, applyBranch, dispatchOf, droppedFacts, genFacts,
+    simp [tEval, argVal_tt_T, stepsEval, argVal_lit, applyBranch, dispatchOf, droppedFacts, genFacts,
       Generated.tDispatch]
   · simp [refEval_texpr, refStep, arglessDunders, meaning, meaningTable, foldSteps, pyApply,
       toyPrim, refArg]
@@ -265,19 +397,49 @@ theorem c02_wf_counterexample :
     whereas `target['f'](target['a'])` is the object `T['b']`.  (Reading: the
     property is about targets made of plain data; recorded in the harness' ASSUMPTIONS.) -/
 theorem c02_double_eval_counterexample :
-    record genFacts (toyPrim leaky).none dblE = some dblO ∧
-    refEval (toyPrim leaky) dblE (.n 7) = .ok .tobj ∧
-    tEval genFacts (toyPrim leaky) dblO (.n 7) = .ok (.n 7) := by
+    record genFacts (toyPrim leaky id).none dblE = some dblO ∧
+    refEval (toyPrim leaky id) dblE (.n 7) [] = (.ok .tobj, []) ∧
+    tEval genFacts (toyPrim leaky id) dblO (.n 7) [] = (.ok (.n 7), []) := by
   refine ⟨?_, ?_, ?_⟩
   · simp [dblE, dblO, toyPrim, record_texpr, recStep, charOf, genFacts, Generated.tRecorded,
       arglessDunders, allSome, flatOfCells, record]
   · simp [dblE, refEval_texpr, refStep, arglessDunders, meaning, meaningTable, foldSteps, pyApply,
-      toyPrim, refArg_texpr, refArg, refVals, refVal1, seqAll]
+      toyPrim, refArg, refVals, refValRun, refVal1, seqRun]
   · have h : dblO = .tt (.root "T" :: flatOfCells [("[", .lit (.n 1)),
         ("(", .cargs [.tt (.root "T" :: flatOfCells [("[", .lit (.n 2))])] [])]) := by
       simp [dblO, flatOfCells]
     rw [h]
-    simp [tEval, argVal_tt_T, stepsEval, argVal, valsOf, valOfRes, asVal, seqAll, applyBranch,
-      dispatchOf, genFacts, Generated.tDispatch, Kind.ofString, kindNames, guarded, toyPrim, leaky]
+    simp [tEval, argVal_tt_T, stepsEval, argVal_lit, argVal_cargs, valsOf, valOfRun, valOfRes, asVal,
+      seqRun, applyBranch, dispatchOf, genFacts, Generated.tDispatch, Kind.ofString, kindNames,
+      guarded, guardE, toyPrim, leaky]
+
+/-- **Call arguments are passed by value.**  With a reference semantics that hands
+    the very argument objects to the callee (`pass = id`), the identity function
+    called with the target returns the target object itself; `_t_eval` returns a
+    *copy* (`Call.glomit` runs `arg_val` over the evaluated arguments, which
+    rebuilds every list / tuple / dict).  Real glom:
+    `t = {'f': ident, 'l': [1]}`; `glom(t, T['f'](T['l'])) is t['l']` is False, and
+    `glom(t, T['f'](T['l']).append(2))` leaves `t['l'] == [1]`, whereas
+    `t['f'](t['l']).append(2)` makes it `[1, 2]`.  So "exactly the recorded
+    operations on the target" holds only with calls read as by-value for the
+    three builtin container types — which is what `passCall` says. -/
+theorem c02_call_by_value_counterexample :
+    record genFacts (toyPrim copying id).none idE = some idO ∧
+    refEval (toyPrim copying id) idE .stack [1] = (.ok .stack, [1]) ∧
+    tEval genFacts (toyPrim copying id) idO .stack [1] = (.ok .snap, [1]) ∧
+    refEval (toyPrim copying byValue) idE .stack [1] = (.ok .snap, [1]) := by
+  refine ⟨?_, ?_, ?_, ?_⟩
+  · simp [idE, idO, toyPrim, record_texpr, recStep, charOf, genFacts, Generated.tRecorded,
+      arglessDunders, allSome, flatOfCells, record]
+  · simp [idE, refEval_texpr, refStep, arglessDunders, meaning, meaningTable, foldSteps, pyApply,
+      toyPrim, refArg, refVals, refValRun, refVal1, seqRun]
+  · have h : (C02.Obj.tt [.root "T"] : C02.Obj TV) = .tt (.root "T" :: flatOfCells []) := by
+      simp [flatOfCells]
+    simp only [idO, h]
+    simp [tEval, argVal_tt_T, stepsEval, argVal_lit, argVal_cargs, valsOf, valOfRun, valOfRes, asVal,
+      seqRun, applyBranch, dispatchOf, genFacts, Generated.tDispatch, Kind.ofString, kindNames,
+      guarded, guardE, toyPrim, copying]
+  · simp [idE, refEval_texpr, refStep, arglessDunders, meaning, meaningTable, foldSteps, pyApply,
+      toyPrim, refArg, refVals, refValRun, refVal1, seqRun, byValue, copying]
 
 end Glom.Props.C02
